@@ -6,4 +6,5 @@ pub mod util;
 
 pub mod c01;
 pub mod c03;
+pub mod c32;
 pub mod c43;
